@@ -172,6 +172,11 @@ func (f *FibStrategyTree) InsertNextHopEnc(name enc.Name, nexthop uint64, cost u
 	f.fibStrategyRWMutex.Lock()
 	defer f.fibStrategyRWMutex.Unlock()
 
+	f.insertNextHop(name, nexthop, cost)
+}
+
+// insertNextHop is InsertNextHopEnc for callers that hold the write lock.
+func (f *FibStrategyTree) insertNextHop(name enc.Name, nexthop uint64, cost uint64) {
 	name = name.Clone()
 	entry := f.fillTreeToPrefixEnc(name)
 	if entry.name == nil {
@@ -198,6 +203,24 @@ func (f *FibStrategyTree) ClearNextHopsEnc(name enc.Name) {
 	f.fibStrategyRWMutex.Lock()
 	defer f.fibStrategyRWMutex.Unlock()
 
+	f.clearNextHops(name)
+}
+
+// ReplaceNextHopsEnc atomically replaces the nexthop sets of the given prefixes.
+func (f *FibStrategyTree) ReplaceNextHopsEnc(updates []FibNextHopsUpdate) {
+	f.fibStrategyRWMutex.Lock()
+	defer f.fibStrategyRWMutex.Unlock()
+
+	for _, update := range updates {
+		f.clearNextHops(update.Name)
+		for _, nexthop := range update.Nexthops {
+			f.insertNextHop(update.Name, nexthop.Nexthop, nexthop.Cost)
+		}
+	}
+}
+
+// clearNextHops is ClearNextHopsEnc for callers that hold the write lock.
+func (f *FibStrategyTree) clearNextHops(name enc.Name) {
 	if name == nil {
 		return // In some weird case, when RibEntry.updateNexthops() is called, the name becomes nil.
 	}
